@@ -2,9 +2,13 @@ package c11
 
 import (
 	"bytes"
+	"crypto/sha256"
+	"encoding/binary"
 	"fmt"
+	"io"
 	"net"
 	"reflect"
+	"sort"
 	"strings"
 	"sync"
 	"testing"
@@ -20,7 +24,7 @@ import (
 )
 
 var recRT = kit.NewRecorder("C11", "roundtrip",
-	"rapid-generated (type,value) pairs from a type grammar (primitives, framework ids, time, errors, 16 registered harness types incl. MarshalEDF/BinaryMarshaler, slices/arrays/maps/any nested to depth 4, nil vs empty, boundary injectors atom 255/256, string 65533..65536, error 32767/32768) x 8 cache configurations; "+
+	"rapid-generated (type,value) pairs from a type grammar (primitives, framework ids, time, errors, 16 registered harness types incl. MarshalEDF/BinaryMarshaler, slices/arrays/maps/any nested to depth 4, nil vs empty, boundary injectors atom 255/256, string 65533..65536, error 32767/32768) x 10 cache configurations (no cache, each cache alone, all, atom mapping, the caches two real handshake parties negotiate in both directions, and the caches negotiated with a scripted peer that numbers its atom and error caches differently); "+
 		"oracle: Encode ok => Decode ok, tail == appended garbage, same type, deep-equal (NaN by bits, time by instant+offset, sentinel errors by identity under an error cache); Encode error <=> value beyond a documented limit; "+
 		"non-trivial = nesting depth >= 2 or a boundary value; distinct by (config, encoded bytes)")
 
@@ -75,12 +79,140 @@ func negotiated() ([2]edfgen.Config, error) {
 	return negCfg, negErr
 }
 
+var (
+	forOnce sync.Once
+	forCfg  edfgen.Config
+	forErr  error
+)
+
+// negotiatedForeign: the peer is scripted (public message types only) and numbers its atom and
+// error caches differently from this process's registry - as a peer built from another binary
+// would. What it encodes with its own numbering must decode to the same values here: ids are
+// private to a node, the cached items are matched by content.
+func negotiatedForeign() (edfgen.Config, error) {
+	forOnce.Do(func() {
+		ca, cb := net.Pipe()
+		defer ca.Close()
+		defer cb.Close()
+		hs := handshake.Create(handshake.Options{})
+		type res struct {
+			r   gen.HandshakeResult
+			err error
+		}
+		ch := make(chan res, 1)
+		go func() {
+			r, err := hs.Start(fakeNode{"verif_a@localhost", 1}, ca, gen.HandshakeOptions{Cookie: "c"})
+			ch <- res{r, err}
+		}()
+		read := func() (any, error) {
+			hdr := make([]byte, 6)
+			if _, err := io.ReadFull(cb, hdr); err != nil {
+				return nil, err
+			}
+			body := make([]byte, binary.BigEndian.Uint32(hdr[2:6]))
+			if _, err := io.ReadFull(cb, body); err != nil {
+				return nil, err
+			}
+			v, _, err := edf.Decode(body, edf.Options{})
+			return v, err
+		}
+		write := func(msg any) error {
+			buf := lib.TakeBuffer()
+			defer lib.ReleaseBuffer(buf)
+			buf.Allocate(6)
+			if err := edf.Encode(msg, buf, edf.Options{}); err != nil {
+				return err
+			}
+			buf.B[0], buf.B[1] = 87, 1
+			binary.BigEndian.PutUint32(buf.B[2:6], uint32(buf.Len()-6))
+			_, err := cb.Write(buf.B)
+			return err
+		}
+		sha := func(f string, a ...any) string {
+			h := sha256.Sum256([]byte(fmt.Sprintf(f, a...)))
+			return fmt.Sprintf("%x", h[:])
+		}
+		fail := func(err error) { forErr = err; <-ch }
+		v, err := read()
+		hello, ok := v.(handshake.MessageHello)
+		if err != nil || !ok {
+			fail(fmt.Errorf("scripted peer: no hello: %v %T", err, v))
+			return
+		}
+		if err := write(handshake.MessageHello{Salt: "foreign-salt", Digest: sha("%s:%s:%s", "foreign-salt", hello.Digest, "c")}); err != nil {
+			fail(err)
+			return
+		}
+		v, err = read()
+		intro, ok := v.(handshake.MessageIntroduce)
+		if err != nil || !ok {
+			fail(fmt.Errorf("scripted peer: no introduce: %v %T", err, v))
+			return
+		}
+		// the same items, other ids: rotate the ids by one position
+		var aids, eids []int
+		for id := range intro.AtomCache {
+			aids = append(aids, int(id))
+		}
+		for id := range intro.ErrCache {
+			eids = append(eids, int(id))
+		}
+		sort.Ints(aids)
+		sort.Ints(eids)
+		peerAtoms, peerErrs := map[uint16]gen.Atom{}, map[uint16]error{}
+		encAtoms, encErrs := new(sync.Map), new(sync.Map)
+		decAtoms, decErrs := new(sync.Map), new(sync.Map)
+		for i, id := range aids {
+			nid := uint16(aids[(i+1)%len(aids)])
+			peerAtoms[nid] = intro.AtomCache[uint16(id)]
+			encAtoms.Store(intro.AtomCache[uint16(id)], nid)
+			decAtoms.Store(nid, intro.AtomCache[uint16(id)])
+		}
+		local := edf.GetErrCache()
+		for i, id := range eids {
+			nid := uint16(eids[(i+1)%len(eids)])
+			peerErrs[nid] = local[uint16(id)]
+			encErrs.Store(local[uint16(id)], nid)
+			decErrs.Store(nid, local[uint16(id)])
+		}
+		if err := write(handshake.MessageAccept{ID: "foreign-connection", PoolSize: 1}); err != nil {
+			fail(err)
+			return
+		}
+		if err := write(handshake.MessageIntroduce{Node: "verif_f@localhost", Version: gen.Version{Name: "verif", Release: "foreign"},
+			Flags: gen.NetworkFlags{Enable: true}, Creation: 3, AtomCache: peerAtoms, ErrCache: peerErrs}); err != nil {
+			fail(err)
+			return
+		}
+		read() // Accept
+		r := <-ch
+		if r.err != nil {
+			forErr = fmt.Errorf("handshake with the scripted peer failed: %v", r.err)
+			return
+		}
+		oa := r.r.Custom.(handshake.ConnectionOptions)
+		forCfg = edfgen.Config{Name: "negotiated-foreign-numbering",
+			Enc: edf.Options{AtomCache: encAtoms, ErrCache: encErrs, Cache: new(sync.Map)},
+			Dec: edf.Options{AtomCache: oa.DecodeAtomCache, RegCache: oa.DecodeRegCache, ErrCache: oa.DecodeErrCache, Cache: new(sync.Map)},
+			Eq:  edfgen.EqOptions{SentinelIdentity: true}}
+		_ = decAtoms
+		_ = decErrs
+	})
+	return forCfg, forErr
+}
+
 func allConfigs(t interface{ Fatalf(string, ...any) }) []edfgen.Config {
 	cfgs := edfgen.Configs()
 	n, err := negotiated()
 	if err != nil {
 		t.Fatalf("cannot negotiate caches: %v", err)
 	}
+	f, err := negotiatedForeign()
+	if err != nil {
+		t.Fatalf("cannot negotiate caches with the scripted peer: %v", err)
+	}
+	f.Enc.Cache, f.Dec.Cache = new(sync.Map), new(sync.Map)
+	cfgs = append(cfgs, f)
 	// fresh common caches for the negotiated pairs too
 	for _, c := range n {
 		c.Enc.Cache = new(sync.Map)
